@@ -14,6 +14,8 @@ import RigModel.Lemmas.C01
 import RigModel.Lemmas.C01Pipe
 import RigModel.Props.C03
 import RigModel.Props.C04
+import RigModel.Model.C02
+import RigModel.Model.C05
 set_option linter.unusedSimpArgs false
 set_option linter.unusedVariables false
 
@@ -285,5 +287,49 @@ example : ∀ k : W, k &&& exA.mask = exA.key →
     (fun v hv' => L.occOk_of_tables hex ex_hyps.2.2.2.2.1 (fun n' hn' => (hv n' hn').distinct) hpos (by simp) hk hv')
   have hs : SrcListed (tableAt (tables04 exT10)) k none exA.tree := by simpa [Rig.C10.srcOf] using hag.2
   exact ⟨hag.1, hs, covered_of_tree _ _ _ _ exA.tree _ [] none hag.1 hs⟩
+
+/-! ## bridges from the placement and allocation properties
+
+`pipeline_delivery` uses the placement and the allocation through two facts only; both follow from
+the stage predicates of C02 and C05. -/
+
+/-- the machine of C03/C01 that has the chips of a C02 machine (links as given) -/
+def machineOf02 (m2 : Rig.C02.Machine) (deadLinks : List (Chip × Nat)) : Machine :=
+  { w := m2.w, h := m2.h, deadChips := m2.dead.map chipZ, deadLinks := deadLinks }
+
+/-- **C02 ⇒ `hplace`.**  In a feasible placement (C02 `Feasible`) every vertex is on a working chip
+of the machine - in particular the source of every net. -/
+theorem placement_bridge (vr : Rig.C02.VR) (cs : List Rig.C02.Constraint) (m2 : Rig.C02.Machine)
+    (p : Rig.C02.Placement) (dl : List (Chip × Nat)) (hf : Rig.C02.Feasible vr cs m2 p) :
+    ∀ v ∈ Rig.C02.keys vr, ∃ c, Rig.C02.aget p v = some c ∧ chipOk (machineOf02 m2 dl) (chipZ c) = true := by
+  intro v hv
+  obtain ⟨c, hc, hok⟩ := hf.placed v hv
+  refine ⟨c, hc, ?_⟩
+  have hcont : (m2.dead.map chipZ).contains (chipZ c) = m2.dead.contains c := by
+    rw [Bool.eq_iff_iff]
+    simp only [List.contains_iff_mem, List.mem_map]
+    constructor
+    · rintro ⟨a, ha, he⟩; rw [← L.chipZ_inj he]; exact ha
+    · intro h; exact ⟨c, h, rfl⟩
+  simp only [Rig.C02.Machine.ok, Bool.and_eq_true, decide_eq_true_eq, Bool.not_eq_true'] at hok
+  have hw := hok.1.1
+  have hh := hok.1.2
+  unfold chipOk
+  simp only [machineOf02, hcont]
+  simp only [chipZ, Bool.and_eq_true, decide_eq_true_eq, Bool.not_eq_true']
+  refine ⟨⟨⟨⟨?_, ?_⟩, ?_⟩, ?_⟩, hok.2⟩ <;> (apply decide_eq_true; omega)
+
+/-- **C05 ⇒ `halloc` (cores).**  In a valid allocation (C05 `Valid`) every range handed out for a
+resource lies inside `0 .. capacity` of the chip the vertex is placed on; for the cores resource of
+a SpiNNaker chip (capacity at most 18) the allocated cores are cores 0..17. -/
+theorem allocation_bridge (inp : Rig.C05.Input) (out : Rig.C05.Alloc) (coreRes : Rig.C05.Res)
+    (hv : Rig.C05.Valid inp out)
+    (hcap : ∀ xy c, Rig.C05.capacity inp.machine xy coreRes = some c → c ≤ 18) :
+    ∀ t ∈ Rig.C05.flat out, t.2.1 = coreRes → 0 ≤ t.2.2.start ∧ t.2.2.stop ≤ 18 := by
+  intro t ht hres
+  obtain ⟨p, _, _, q, _, _, rd, _, hrd, hg⟩ := hv.2.2.1 t ht
+  obtain ⟨_, h0, ⟨c, hc, hle⟩, _⟩ := hg
+  rw [hrd, hres] at hc
+  exact ⟨h0, Int.le_trans hle (hcap _ _ hc)⟩
 
 end Rig.C01
